@@ -304,8 +304,12 @@ func convertRequestToInternalStats(req *structs.GroupByRequest, usedByTimechart 
 }
 
 func (b *BlockResults) Close() {
-	rrcsPool.Put(&b.UnsortedResults)
+	// pool the slice, not the address of the field that is cleared here
+	rrcs := b.UnsortedResults
 	b.UnsortedResults = nil
+	if rrcs != nil {
+		rrcsPool.Put(&rrcs)
+	}
 }
 
 /*
